@@ -891,6 +891,21 @@ func (x *Exec) step(st *State, f *Frame, ins ssa.Instruction) []*State {
 			}
 			return nil
 		}
+		// a condition already decided on this path (same term, or its negation) does not fork again
+		for _, pcn := range st.pc {
+			if pcn == c {
+				x.jump(st, f, tb)
+				return nil
+			}
+			if pcn.Op == "bnot" && x.d.get(pcn.Args[0]) == c {
+				x.jump(st, f, fb)
+				return nil
+			}
+			if c.Op == "bnot" && x.d.get(c.Args[0]) == pcn {
+				x.jump(st, f, fb)
+				return nil
+			}
+		}
 		at := x.pos(in.Cond.Pos())
 		if at == "?" {
 			at, _ = x.curPos(st)
